@@ -534,11 +534,94 @@ def check_twin_overrides(acc):
                         break
 
 
+# ---- which spelling of a name the process sees first ---------------------------------------------------------------------------
+NAME_STEMS = ("bold", "dark", "italic", "underline", "blink", "invert", "red", "blue", "gray", "on_blue", "on_red", "nocolor", "on_nocolor")
+
+
+def name_calls():
+    """(label, positional names, keywords): every stem in four spellings, alone; then pairs in one call and through style= / the helpers."""
+    out = []
+    for stem in NAME_STEMS:
+        for sp in (stem, stem.capitalize(), stem.upper(), stem[:3] + stem[3:].capitalize()):
+            if not any(sp == o[1][0] for o in out if o[1]):
+                out.append(("fmtstr(x, %r)" % sp, (sp,), ()))
+    for a, b in (("bold", "RED"), ("Bold", "red"), ("on_Blue", "underline"), ("On_blue", "UNDERLINE"), ("blink", "invert"), ("Blink", "Invert")):
+        out.append(("fmtstr(x, %r, %r)" % (a, b), (a, b), ()))
+    for st in ("bold", "Bold", "underline", "Underline", "BLINK", "blink"):
+        out.append(("fmtstr(x, style=%r)" % st, (), (("style", st),)))
+    for k, v in (("fg", "red"), ("fg", "Red"), ("bg", "blue"), ("bg", "BLUE"), ("Bold", True), ("bold", True)):
+        out.append(("fmtstr(x, %s=%r)" % (k, v), (), ((k, v),)))
+    return out
+
+
+def names_in_order(order):
+    """Runs name_calls() in the given order in this (fresh) process; returns {label: outcome} with outcome = cells of the result, or
+    the name of the exception."""
+    from curtsies.formatstring import fmtstr
+    import curtsies.fmtfuncs as ff
+
+    calls = name_calls()
+    idx = list(range(len(calls)))
+    if order == "reversed":
+        idx.reverse()
+    elif order == "rejected_spellings_first":
+        idx.sort(key=lambda i: (all(a == a.lower() for a in calls[i][1]) and all(str(v) == str(v).lower() and k == k.lower() for k, v in calls[i][2]), i))
+    elif order == "helpers_first":
+        for st in ("bold", "underline", "blink", "red", "on_blue"):
+            getattr(ff, st)("x")
+    res = {}
+    for i in idx:
+        label, args, kw = calls[i]
+        try:
+            r = fmtstr("x", *args, **dict(kw))
+            res[label] = [[c, [list(x) for x in a]] for c, a in C.cells(r)] + [str(r)]
+        except Exception as ex:  # noqa
+            res[label] = type(ex).__name__
+    for st in ("bold", "underline", "blink", "red", "on_blue", "invert"):
+        try:
+            r = getattr(ff, st)("x")
+            res["fmtfuncs.%s(x)" % st] = [[c, [list(x) for x in a]] for c, a in C.cells(r)] + [str(r)]
+        except Exception as ex:  # noqa
+            res["fmtfuncs.%s(x)" % st] = type(ex).__name__
+    return res
+
+
+NAME_ORDERS = ("as_listed", "reversed", "rejected_spellings_first", "helpers_first")
+
+
+def check_name_orders(acc):
+    """A name table filled on first use must not let the first spelling (or a rejected call) decide what later calls do: the same
+    calls, in four orders, each order in an interpreter of its own - every call must have the same outcome in all of them, and the
+    lower-case spellings must mean what the model says."""
+    from mc import fresh
+
+    results = {o: fresh.in_fresh_process(names_in_order, o) for o in NAME_ORDERS}
+    base = results[NAME_ORDERS[0]]
+    for label in sorted(base):
+        for o in NAME_ORDERS[1:]:
+            case = {"call": label, "orders": [NAME_ORDERS[0], o], "each order": "in a newly started interpreter"}
+            acc.case(True, key=("nameorder", label, o), sample=case)
+            acc.transitions += 1
+            if results[o].get(label) != base[label]:
+                acc.failure("C14:outcome_depends_on_which_spelling_the_process_saw_first", case, "%r as listed, %r in order %s" % (base[label], results[o].get(label), o))
+    want = {"bold": {"bold": True}, "underline": {"underline": True}, "blink": {"blink": True}, "invert": {"invert": True}, "red": {"fg": 31}, "on_blue": {"bg": 44}}
+    for o in NAME_ORDERS:
+        for st, atts in want.items():
+            for label in ("fmtstr(x, %r)" % st, "fmtfuncs.%s(x)" % st):
+                got = results[o].get(label)
+                exp = [["x", [list(x) for x in C.norm_atts(atts)]]]
+                if not isinstance(got, list) or got[:-1] != exp:
+                    acc.failure("C14:apply_result", {"call": label, "order": o, "each order": "in a newly started interpreter"}, "got %r expected %r" % (got, exp))
+
+
 def run(ctx):
     rep = Report()
     acc_t = Acc(seed=ctx.seed)
     check_twin_overrides(acc_t)
     rep.merge(acc_t, "twin_value_overrides")
+    acc_n = Acc(seed=ctx.seed)
+    check_name_orders(acc_n)
+    rep.merge(acc_n, "spelling_seen_first_in_the_process")
     repeat.run_into(ctx, rep, "C14")
     for d in ctx.pmap(shard_single, [(ctx.tier, ctx.seed, i) for i in range(16)]):
         rep.merge(d, "single_attribute_all_spellings")
@@ -555,8 +638,9 @@ def run(ctx):
     rep.rule = (
         "bases: 3 str + U_layout(2,2,P3); every one of 28 attribute values in every spelling; every pair and triple of distinct kinds "
         "(2 values each) in one call (2^n positional/keyword spellings) and nested in every order, plus same-kind override; removal of every "
-        "subset of <=2 names over a 4-palette universe; shared_atts; copy_with_new_str on uniform values; %d invalid + %d wrong-case specs. "
-        "Distinct by construction; non-trivial = base has characters." % (len(invalid_catalogue()), len(wrong_case_catalogue()))
+        "subset of <=2 names over a 4-palette universe; shared_atts; copy_with_new_str on uniform values; %d invalid + %d wrong-case specs; "
+        "%d name calls (13 stems x 4 spellings, pairs, style=, keywords, helpers) in 4 orders, each order in its own interpreter. "
+        "Distinct by construction; non-trivial = base has characters." % (len(invalid_catalogue()), len(wrong_case_catalogue()), len(name_calls()) + 6)
     )
     rep.assumptions = ["False == absent", "invalid specifications checked through fmtstr() only", "style values other than True/False not in the catalogue"]
     return rep
